@@ -44,7 +44,7 @@ def alphabet(tier):
     for k in ("con", "sto", "st"):
         for gi in (0, 2):
             ops.append(("A", k, gi))
-    ops += [("SP", 0), ("SP", 1), ("SPLIT", 0), ("SPLIT", 1), ("OPT",), ("JSON",), ("FLAT", 0), ("FLAT", 1), ("CS", 0), ("CS", 1)]
+    ops += [("SP", 0), ("SP", 1), ("SPLIT", 0), ("SPLIT", 1), ("OPT",), ("JSON",), ("FLAT", 0), ("FLAT", 1), ("CS", 0), ("CS", 1), ("ARR", 0), ("ARR", 2)]
     if tier == "thorough":
         ops += [("SLP", 0), ("SLP", 1)]
     return ops
@@ -86,6 +86,10 @@ class World:
         self.late = SimpleContract(name="late", nodes=n3, price="p", min_cap=-1.0, max_cap=1.0, start=T("2021-01-02 06:00"), end=T("2021-01-03"))
         self.pf = Portfolio([self.con, self.sto, self.ob, self.tr, self.xtr, self.mk2, self.st, self.late, self.pl])
         self.fm = SimpleContract(name="fm", nodes=n1, price="p", min_cap=-5.0, max_cap=5.0)
+        # capacities as float arrays of grid length (valid on the 4-step grids only), in a portfolio of their own
+        self.cap4 = np.array([1.0, 2.0, 1.5, 0.5])
+        self.arr4 = SimpleContract(name="arr4", nodes=n1, price="q", min_cap=-self.cap4, max_cap=self.cap4)
+        self.pf_arr = Portfolio([SimpleContract(name="am", nodes=n1, price="p", min_cap=-5.0, max_cap=5.0), self.arr4])
         self.flat = Portfolio([self.fm, self.isto, self.itr])
         self.grids = []
         for g in GRIDS:
@@ -106,7 +110,7 @@ class World:
 
     def objects(self):
         return dict(con=self.con, sto=self.sto, tr=self.tr, mk2=self.mk2, isto=self.isto, itr=self.itr, st=self.st, pf=self.pf,
-                    fm=self.fm, flat=self.flat, capd=self.capd, taked=self.taked, P=self.P, ob=self.ob, late=self.late, pl=self.pl, cap_arr=self.cap_arr, xtr=self.xtr, xtake=self.xtake, orders=self.orders, orders_df=self.orders_df,
+                    fm=self.fm, flat=self.flat, capd=self.capd, taked=self.taked, P=self.P, ob=self.ob, late=self.late, pl=self.pl, cap_arr=self.cap_arr, cap4=self.cap4, arr4=self.arr4, pf_arr=self.pf_arr, xtr=self.xtr, xtake=self.xtake, orders=self.orders, orders_df=self.orders_df,
                     ctx=(self.cur, self.last, None if self.last_op is None else "op"))
 
     def key(self):
@@ -167,6 +171,10 @@ class World:
             cs = self.pf.create_cost_samples([self.P[1][gi]], self.grids[gi])
             self.cur = gi
             return ("costs", chash(np.round(np.asarray(cs[0], float), 9).tolist()))
+        if kind == "ARR":
+            _, gi = op
+            prob = self.pf_arr.setup_optim_problem(self.P[0][gi], self.grids[gi])
+            return ("problem", H.problem_hash(prob))
         if kind == "FLAT":
             _, gi = op
             prob = self.flat.setup_optim_problem(self.P[0][gi], self.grids[gi])
